@@ -92,6 +92,9 @@ type CloseStep struct {
 
 // Plan is one generated case.
 type Plan struct {
+	// Judge: "" = the job's own oracle; "order" = a plan of the C17 generator run inside another job (judged by the
+	// order oracle and the receiver model)
+	Judge string `json:"judge,omitempty"`
 	// ChanEdge: the gateway assigns the channels 0, 255, 0, 1, 254, ... instead of numbers from the middle of the range
 	ChanEdge bool          `json:"chan_edge,omitempty"`
 	Cfg      Cfg           `json:"cfg"`
@@ -262,7 +265,31 @@ func indMsg(tag int) cemi.Message { return &cemi.LDataInd{LData: ldata(tag)} }
 // inMsg: what the gateway tunnels to the client for telegram `tag`. On a raw tunnel a fraction of the telegrams are
 // confirmations and requests (the message kind is a function of the tag): the client hands every cEMI message to
 // the application alike. The group layer surfaces indications only, so group plans stick to those.
+// vary gives the telegram for `tag` header fields that depend on the tag: all four priorities (system priority among
+// them), both repeat flags, hop counts 0..7, different senders. Order, delivery and acknowledgement do not depend on them.
+func vary(l *cemi.LData, tag int) {
+	l.Control1 = cemi.Control1StdFrame | cemi.Control1NoSysBroadcast | cemi.Control1Prio(cemi.Priority(tag%4))
+	if tag%3 != 0 {
+		l.Control1 |= cemi.Control1NoRepeat
+	}
+	l.Control2 = cemi.Control2GroupAddr | cemi.Control2Hops(uint8(tag%8))
+	l.Source = cemi.NewIndividualAddr3(1, 1, uint8(tag%250+1))
+}
+
 func inMsg(tag int, group bool) cemi.Message {
+	m := inMsgPlain(tag, group)
+	switch v := m.(type) {
+	case *cemi.LDataInd:
+		vary(&v.LData, tag)
+	case *cemi.LDataCon:
+		vary(&v.LData, tag)
+	case *cemi.LDataReq:
+		vary(&v.LData, tag)
+	}
+	return m
+}
+
+func inMsgPlain(tag int, group bool) cemi.Message {
 	switch {
 	case group:
 		return indMsg(tag)
